@@ -28,6 +28,10 @@ func OraclesFor(prop string) []Oracle {
 		return []Oracle{t, &C13{}}
 	case "C14":
 		return []Oracle{t, &C14{}}
+	case "C16":
+		return []Oracle{t, &C16{}}
+	case "C17":
+		return []Oracle{t, &C17{}}
 	case "C18":
 		return []Oracle{t, &C18{}}
 	case "C19":
